@@ -8,7 +8,7 @@ progs = [p for p in (fn(0) if which == 'c06_variants' else fn()) if p.name == na
 cp = Cp.Corpus('one-' + name[:30], progs, hooks=True); cp.build(); ast = cp.load_ast()
 p = progs[0]
 print(L.program_rs(p))
-sc = Sc.Scenario(kind, D=3)
+sc = Sc.Scenario(kind, D=int(sys.argv[4]) if len(sys.argv) > 4 else 3)
 out = Ck.check_program(cp, Dr.find_module(ast, p.name), p, sc, random.Random(1), V=3)
 print(out.status, out.detail)
 print(out.stats)
